@@ -98,6 +98,9 @@ type histGen struct {
 	// plainAmountsForAdmins avoids balance-relative amounts for genesis admins (their balance depends on fee income,
 	// which a differential run without the failed transactions does not have)
 	plainAmountsForAdmins bool
+	// plainFor: further senders (address string) whose balance differs between the two runs of a differential check
+	// (they paid for a failed transaction before): no balance-relative amounts for them either
+	plainFor map[string]bool
 	// replays: how many times a generated transaction is executed in this process (replicas, crash images, re-execution
 	// after rollback); see xvmAllowed
 	replays int
@@ -170,6 +173,9 @@ func (g *histGen) amount(from *sim.Key) string {
 			if a == from {
 				k = 8
 			}
+		}
+		if g.plainFor[from.Addr.String()] {
+			k = 8
 		}
 	}
 	switch k {
